@@ -599,20 +599,25 @@ func connectReply(x *explore.X) {
 // ---- E: hostile client input ---------------------------------------------------------------------
 
 const baseReq = "GET http://ok2.test/p HTTP/1.1\r\nHost: ok2.test\r\nX-A: b\r\n\r\n"
+const baseConnect = "CONNECT ok2.test:443 HTTP/1.1\r\nHost: ok2.test:443\r\n\r\n"
 
 var mutClasses = []string{"delete", "NUL", "CR", "LF", "0xFF", "space", "colon", "truncate+FIN", "truncate+RST"}
 
 func hostileInput(x *explore.X) {
 	listener := x.Choose("listener", 3) // 0 plain, 1 TLS listener, 2 inside a MITM'd tunnel
-	input := x.ChooseFree("input", 4)   // 0 mutated request, 1 oversized head, 2 binary garbage, 3 partial TLS hello
+	input := x.ChooseFree("input", 5)   // 0 mutated request, 1 oversized head, 2 binary garbage, 3 partial TLS hello, 4 mutated CONNECT
 	var payload []byte
 	end := "FIN"
 	desc := ""
 	switch input {
-	case 0:
-		pos := x.ChooseFree("position", len(baseReq))
+	case 0, 4:
+		base := baseReq
+		if input == 4 {
+			base = baseConnect // (its target names a host: what is done with that name - dialled, counted, logged - sees the octet too)
+		}
+		pos := x.ChooseFree("position", len(base))
 		cls := mutClasses[x.ChooseFree("class", len(mutClasses))]
-		b := []byte(baseReq)
+		b := []byte(base)
 		switch cls {
 		case "delete":
 			b = append(b[:pos:pos], b[pos+1:]...)
@@ -633,7 +638,7 @@ func hostileInput(x *explore.X) {
 		case "truncate+RST":
 			b, end = b[:pos], "RST"
 		}
-		payload, desc = b, fmt.Sprintf("request with %s at offset %d", cls, pos)
+		payload, desc = b, fmt.Sprintf("%s request with %s at offset %d", strings.SplitN(base, " ", 2)[0], cls, pos)
 	case 1:
 		n := []int{4096, 65536, 1 << 20, 2 << 20}[x.ChooseFree("size", 4)]
 		payload = []byte("GET http://ok2.test/p HTTP/1.1\r\nHost: ok2.test\r\nX-Big: " + strings.Repeat("a", n) + "\r\n\r\n")
